@@ -1,7 +1,7 @@
 SPECIFICATION TraceSpecDiag
 CONSTANTS
   Configs = {}
-  ChunkSizes = {0, 6}
+  ChunkSizes = {0, 6, 12}
   SmallMsg = 4
   BigMsg = 20
   MaxErr = 3
